@@ -57,6 +57,8 @@ def fchebyshev(x, m):
         dt = x.dtype
     except AttributeError:
         dt = np.float64
+    if np.issubdtype(dt, np.integer):
+        dt = np.float64
     leg = np.ones((m, n), dtype=dt)
     if m >= 2:
         leg[1, :] = x
